@@ -729,7 +729,8 @@ func vfConcRunTyped(c *vfConcCase) *vfConcHist {
 	case "bytes":
 		return vfConcExec(c, func(i int) []byte { return []byte(vfTextKeys[i]) }, func(k []byte) int { return vfTextKeyIdx[string(k)] })
 	case "int":
-		return vfConcExec(c, func(i int) int { return i + 1 }, func(k int) int { return k - 1 })
+		// pairs of keys that agree in their low 32 bits (ids that have grown past 2^32 are ordinary keys)
+		return vfConcExec(c, func(i int) int { return i/2 + 1 + (i%2)<<32 }, func(k int) int { return 2*((k&0xffffffff)-1) + k>>32 })
 	case "int32":
 		return vfConcExec(c, func(i int) int32 { return int32(i + 1) }, func(k int32) int { return int(k) - 1 })
 	case "uint32":
@@ -737,7 +738,7 @@ func vfConcRunTyped(c *vfConcCase) *vfConcHist {
 	case "int64":
 		return vfConcExec(c, func(i int) int64 { return -int64(i + 1) }, func(k int64) int { return int(-k) - 1 })
 	case "uint":
-		return vfConcExec(c, func(i int) uint { return uint(i + 1) }, func(k uint) int { return int(k) - 1 })
+		return vfConcExec(c, func(i int) uint { return uint(i/2+1) + uint(i%2)<<32 }, func(k uint) int { return 2*(int(k&0xffffffff)-1) + int(k>>32) })
 	case "byte":
 		return vfConcExec(c, func(i int) byte { return byte(i + 1) }, func(k byte) int { return int(k) - 1 })
 	}
